@@ -203,7 +203,7 @@ func (C01) ID() string { return "C01" }
 func (C01) Explore(x *kernel.Explorer, seed uint64) {
 	r := kernel.NewRNG(seed, 0xc01)
 	for i := 0; i < 3 && !x.Expired(); i++ {
-		plan := &kernel.Plan{Prop: "C01", Seed: kernel.Mix(seed, uint64(i)), Swarm: map[string]int64{"conc": int64(r.Intn(2)), "ksv2": int64(r.Intn(3) / 2), "mysql": int64(r.Intn(3) / 2), "depeof": int64(r.Intn(2)), "rawmy": int64(r.Intn(2)), "reexec": int64(r.Intn(2)), "wyield": int64(r.Intn(2)), "chunk": int64(r.Intn(4))}}
+		plan := &kernel.Plan{Prop: "C01", Seed: kernel.Mix(seed, uint64(i)), Swarm: map[string]int64{"conc": int64(r.Intn(2)), "keyid": int64(r.Intn(4) / 3), "ksv2": int64(r.Intn(3) / 2), "mysql": int64(r.Intn(3) / 2), "depeof": int64(r.Intn(2)), "rawmy": int64(r.Intn(2)), "reexec": int64(r.Intn(2)), "wyield": int64(r.Intn(2)), "chunk": int64(r.Intn(4))}}
 		n := 2 + r.Intn(6)
 		for j := 0; j < n; j++ {
 			plan.Ops = append(plan.Ops, kernel.Op{ID: j + 1, Kind: "roundtrip", A: []int64{
@@ -299,6 +299,9 @@ func (C01) Run(t *testing.T, plan *kernel.Plan, keepLog bool) *kernel.Result {
 		if plan.Sw("conc") == 1 && plan.Sw("ksv2") == 0 && !w.Res.Cut {
 			// requests of several clients side by side on one translator service: each gets its own value back
 			c02Conc(w, cw, plan, "C01")
+		}
+		if plan.Sw("keyid") == 1 && plan.Sw("ksv2") == 0 && !w.Res.Cut {
+			c01KeyIDCollision(w, cw, rng)
 		}
 		w.Res.SimNanos = int64(time.Since(start))
 	})
